@@ -5,8 +5,9 @@ from-scratch build of the same sources (fresh workspace, fresh cache root) must 
 import json
 import vlib, buildlib as bl, histcheck as hc
 
-GUARDS = [("alias-dep-not-in-key", hc.g_no_alias_deps),
-          ("nocache-output-hash-ignores-paths", hc.g_no_nocache_multiout_dep)]
+# (the class nocache-output-hash-ignores-paths, finding C01-F3, is gone: GetNoCacheOutputHash pairs every digest with its
+# output; witness_nocache_swap below is the regression history)
+GUARDS = [("alias-dep-not-in-key", hc.g_no_alias_deps)]
 
 
 def raw_workspace(ws, p_in, q_in):
@@ -57,6 +58,58 @@ def witness_dep_swap(out, findings):
             out.known(f["id"], what)
         else:
             out.violation(what, {"description": desc, "observed": {"incremental": inc, "clean": clean, "second_build_stdout": b.stdout[-300:] + b.stderr[-300:]}})
+    return 3
+
+
+def witness_nocache_swap(out):
+    """Model-free regression history of the former finding C01-F3 (the generator's commands echo the output definition into every
+    output, so two outputs of one target never hold each other's bytes in Build.v's histories): a no-cache target with two outputs
+    whose contents swap between two builds; its dependant reads both and must be rebuilt (the no-cache output hash used to be
+    the hash of the sorted content digests, blind to which output holds which content)."""
+    import os, subprocess, shutil
+    grog = vlib.build_grog()
+    base = os.path.join(vlib.scratch(), "ncswap")
+    shutil.rmtree(base, ignore_errors=True)
+    ws, root, ws2, root2 = (os.path.join(base, x) for x in ("ws", "root", "ws2", "root2"))
+
+    def render(w, a, b):
+        os.makedirs(os.path.join(w, "p"), exist_ok=True)
+        json.dump({"targets": [{"name": "n", "command": "cp a.txt x.out && cp b.txt y.out", "inputs": ["a.txt", "b.txt"],
+                                "outputs": ["x.out", "y.out"], "tags": ["no-cache"]}]}, open(os.path.join(w, "p", "BUILD.json"), "w"))
+        open(os.path.join(w, "p", "a.txt"), "w").write(a)
+        open(os.path.join(w, "p", "b.txt"), "w").write(b)
+        os.makedirs(os.path.join(w, "r"), exist_ok=True)
+        json.dump({"targets": [{"name": "t", "command": "cat ../p/x.out ../p/y.out > t.out", "dependencies": ["//p:n"],
+                                "outputs": ["t.out"]}]}, open(os.path.join(w, "r", "BUILD.json"), "w"))
+        open(os.path.join(w, "grog.toml"), "w").write("")
+    for d in (root, root2):
+        os.makedirs(d, exist_ok=True)
+    run1 = lambda w, r: subprocess.run([grog, "build", "//..."], cwd=w, env=bl.grog_env(r, os.path.join(base, "trace")),
+                                       stdout=subprocess.PIPE, stderr=subprocess.PIPE, text=True, timeout=120)
+    render(ws, "AAA\n", "BBB\n")
+    a = run1(ws, root)
+    first = open(os.path.join(ws, "r", "t.out")).read() if os.path.exists(os.path.join(ws, "r", "t.out")) else None
+    render(ws, "BBB\n", "AAA\n")
+    b = run1(ws, root)
+    render(ws2, "BBB\n", "AAA\n")
+    cl = run1(ws2, root2)
+    rd = lambda w: open(os.path.join(w, "r", "t.out")).read() if os.path.exists(os.path.join(w, "r", "t.out")) else None
+    inc, clean = rd(ws), rd(ws2)
+    desc = ["//p:n (tag no-cache): `cp a.txt x.out && cp b.txt y.out`; //r:t depends on it: `cat ../p/x.out ../p/y.out > t.out`",
+            "p/a.txt=AAA p/b.txt=BBB; grog build //...", "swap: p/a.txt=BBB p/b.txt=AAA; grog build //... (same cache)",
+            "from-scratch build of the swapped sources in a fresh workspace and cache root"]
+    obs = {"first": first, "incremental": inc, "clean": clean, "second_build_output": (b.stdout + b.stderr)[-400:]}
+    if a.returncode or b.returncode or cl.returncode:
+        out.violation("no-cache swap witness: a build failed (%s %s %s): %s" % (a.returncode, b.returncode, cl.returncode,
+                      (a.stderr + b.stderr + cl.stderr)[-300:]), {"description": desc, "observed": obs}, no_input=True)
+    elif first == clean:
+        out.violation("no-cache swap witness is vacuous: the swap does not change the dependant's output", {"description": desc, "observed": obs},
+                      no_input=True)
+    elif inc != clean:
+        out.violation("the two outputs of a no-cache dependency swap contents: the dependant is served from the cache with the stale bytes "
+                      "(the no-cache output hash does not tell which output holds which content): incremental r/t.out = %r, from-scratch = %r"
+                      % (inc, clean), {"description": desc, "observed": obs})
+    shutil.rmtree(base, ignore_errors=True)
     return 3
 
 
@@ -129,6 +182,7 @@ def run(out, tier):
     batch = hc.run_batch(plans, vlib.seed())
     findings = {f["class"]: f for f in vlib.known_findings("C01")}
     oracle_evals = witness_dep_swap(out, findings)
+    oracle_evals += witness_nocache_swap(out)
     oracle_evals += witness_restore_fault(out)
     for name, h, notes, m in batch:
         for note in notes:
@@ -162,7 +216,8 @@ def run(out, tier):
                 "nested packages, no-cache targets) and histories of 3 edits with a build after each (+ a no-op rebuild), run on the real "
                 "binary with one persistent GROG_ROOT and through Build.run_history; two streams: 'clean' (all guards of the partial "
                 "theorem hold by construction) and 'full' (aliases, sub-directory outputs, no-cache); both with adversarial byte-shift "
-                "edits, plus the witness histories (alias change, byte moved across an input-file boundary: both must rebuild); "
+                "edits, plus the witness histories (alias change, byte moved across an input-file boundary, the two outputs of a no-cache "
+                "dependency swapping contents: all must rebuild); "
                 "non-trivial = at least two source/taint/perturb operations and two builds; distinct = distinct op lists",
         "samples": hc.sample(batch, 3),
         "traces_validated_against_impl": st["histories"],
